@@ -68,6 +68,9 @@ func (c *c05) Generate(env *kernel.Env, r *kernel.Rand, index int) any {
 	}
 	for i := 0; i < n; i++ {
 		t := infos[r.Intn(len(infos))]
+		if t.Frozen {
+			continue
+		}
 		// operations this table supports
 		kinds := []string{"insert", "insert", "insert", "selectall", "delete", "checkall"}
 		if t.Primary {
@@ -128,7 +131,7 @@ func (c *c05) Generate(env *kernel.Env, r *kernel.Rand, index int) any {
 	return pr
 }
 
-var faultKinds = []pgsim.FaultKind{pgsim.ErrBeforeApply, pgsim.BadConnBefore, pgsim.RowsErrMidway, pgsim.CommitFails, pgsim.ConnLostInTx, pgsim.ErrAfterApply}
+var faultKinds = []pgsim.FaultKind{pgsim.ErrBeforeApply, pgsim.BadConnBefore, pgsim.RowsErrMidway, pgsim.CommitFails, pgsim.ConnLostInTx, pgsim.ErrAfterApply, pgsim.RowRejected}
 
 func (c *c05) Execute(env *kernel.Env, raw json.RawMessage, ch *kernel.Choices) *kernel.Outcome {
 	var p params
